@@ -1031,7 +1031,13 @@ int KSI_AggregationHashChain_aggregate(KSI_AggregationHashChain *aggr, int start
 			goto cleanup;
 		}
 
-		res = KSI_HashChain_aggregate(aggr->ctx, aggr->chain, aggr->inputHash, startLevel, KSI_Integer_getUInt64(aggr->aggrHashId), &outputLevel, &outputHash);
+		/* A hash algorithm id is a single octet; do not let a larger value be truncated into a valid one. */
+		if (KSI_Integer_getUInt64(aggr->aggrHashId) > 0xff) {
+			KSI_pushError(aggr->ctx, res = KSI_UNAVAILABLE_HASH_ALGORITHM, "Hash algorithm can't be larger than 0xff.");
+			goto cleanup;
+		}
+
+		res = KSI_HashChain_aggregate(aggr->ctx, aggr->chain, aggr->inputHash, startLevel, (KSI_HashAlgorithm)KSI_Integer_getUInt64(aggr->aggrHashId), &outputLevel, &outputHash);
 		if (res != KSI_OK) {
 			KSI_pushError(aggr->ctx, res != KSI_OK ? res : (res = KSI_INVALID_STATE), NULL);
 			goto cleanup;
